@@ -27,7 +27,11 @@ def _parse_musl_version(output: str) -> _MuslVersion | None:
     m = re.match(r"Version (\d+)\.(\d+)", lines[1])
     if not m:
         return None
-    return _MuslVersion(major=int(m.group(1)), minor=int(m.group(2)))
+    try:
+        return _MuslVersion(major=int(m.group(1)), minor=int(m.group(2)))
+    except ValueError:
+        # Beyond the interpreter's limit for integer string conversion.
+        return None
 
 
 @functools.lru_cache
